@@ -294,6 +294,16 @@ func TestVerifReplay(t *testing.T) {
 	if _, err := NewSM2Point().SetBytes(bad); err == nil { t.Fatalf("(0,0) accepted") }
 	comp := append([]byte{2}, cases[0].p[1:33]...)
 	if _, err := NewSM2Point().SetBytes(comp); err == nil { t.Fatalf("compressed encoding accepted") }
+	// the two affine-x conversions on every representative of the point at infinity and on finite points with Z != 1
+	g2 := NewSM2Point().Double(NewSM2Generator())
+	for j, o := range []*SM2Point{NewSM2Point(), NewSM2Point().Add(NewSM2Generator(), NewSM2Point().Negate(NewSM2Generator())), NewSM2Point().Double(NewSM2Point()), NewSM2Point().Add(g2, NewSM2Point().Negate(g2))} {
+		func() {
+			defer func() { if x := recover(); x != nil { t.Fatalf("infinity representative %%d: affine conversion panics: %%v", j, x) } }()
+			if o.GetAffineX().Sign() != 0 || o.GetAffineX_Unsafe().Sign() != 0 { t.Fatalf("infinity representative %%d: affine x is not reported as 0 by both conversions", j) }
+			if !bytes.Equal(o.Bytes(), []byte{0}) || !bytes.Equal(o.Bytes_Unsafe(), []byte{0}) { t.Fatalf("infinity representative %%d: encoding is not the single byte 00", j) }
+		}()
+	}
+	if g2.GetAffineX().Cmp(g2.GetAffineX_Unsafe()) != 0 { t.Fatalf("GetAffineX and GetAffineX_Unsafe differ for Z != 1") }
 	// coordinates with two or more leading zero bytes (outside the symbolic case split of Bytes_Unsafe): search some and compare the conversions
 	found := 0
 	for i := uint64(1); i < 400000 && found < 4; i++ {
